@@ -59,16 +59,16 @@ CHECKS = {
         note="Trusted: reference reader; respelling generator."),
     "C14": dict(engine="E5-environment", design="§2 E5, §3 C14",
         technique="fresh-interpreter enumeration of hash seeds; explicit-state BFS over call histories to a fixpoint of the canonical module state; stateless exploration of thread schedules with iterative context bounding under a cooperative scheduler (sys.monitoring)",
-        text="250-item workload identical under 16 (thorough 256+8 random) hash seeds; BFS over 23 public calls (failing parses, rejected molfiles, reads whose results are scribbled on, calls on a retained graph object) to a fixpoint of the canonical module state (128 + 24 states) with every transition's result equal to a fresh process, plus the unmerged history tree; all schedules with <=1 preemption on 8 two-thread harnesses (incl. one starting from freshly imported modules) and <=2 preemptions on 3 short harnesses at line granularity, <=1 preemption on 3 harnesses at bytecode-instruction granularity (thorough: 2 more at bound 2, 3 threads at bound 1) give the sequential results, terminate, leave the interpreter settings untouched and a module state on which a probe workload still agrees.",
+        text="250-item workload identical under 16 (thorough 256+8 random) hash seeds; BFS over 23 public calls (failing parses, rejected molfiles, reads whose results are scribbled on, calls on a retained graph object) to a fixpoint of the canonical module state (128 + 24 states) with every transition's result equal to a fresh process, plus the unmerged history tree; all schedules with <=1 preemption on 8 two-thread harnesses (incl. one starting from freshly imported modules) and <=2 preemptions on 3 short harnesses at line granularity, <=1 preemption on 3 harnesses at bytecode-instruction granularity (thorough: 2 more at bound 2, 3 threads at bound 1, the 3 instruction-level harnesses at bound 2) give the sequential results, terminate, leave the interpreter settings untouched and a module state on which a probe workload still agrees.",
         note="Line-granularity interleavings of instrumented code (all tucan functions + ANTLR lexer cache functions); GIL; private equal-valued inputs per thread."),
     "C15": dict(engine="E4-sizes", design="§2 E4, §3 C15",
         technique="exhaustive size ladder (every n up to N_small for 13 families) plus large sizes chosen from the measured frame-depth curve",
         text="Every family (paths, labelled paths, cycles, ladders, combs, caterpillars, peptide backbone, stars, complete graphs, isolated atoms, disjoint copies) at every n<=200 (thorough 400) and at 1000/2000 (thorough 3000/5000) atoms plus the size where the measured frame depth would cross the recursion limit: the pipeline and the parser round trip return normally with equal strings.",
         note="Default recursion limit; only observed exceptions are violations."),
     "C16": dict(engine="E5-environment", design="§2 E5, §3 C16",
-        technique="exhaustive enumeration of RNG answer vectors (owned Random._randbelow: all n! shuffle outcomes, retry tree to depth 2) for all labelled graphs n<=4 (thorough 5) + zoo; real-seed grid",
+        technique="exhaustive enumeration of RNG answer vectors (owned Random._randbelow: all n! shuffle outcomes, retry loop run in full to retry 2 and then closed by explicit-state matching of the running frame's control state - a repeated loop state is a cycle of the state graph - or, if the state never repeats, explored to a per-graph execution budget) for all labelled graphs n<=4 (thorough 5) + zoo; real-seed grid",
         text="For every labelled graph with tracer attributes and every shuffle outcome the result is a faithful relabelled copy in label order on the same label set, the argument is unchanged, the edge set differs when required; same seed gives the same result.",
-        note="CPython's shuffle draws only via _randbelow (unowned draws are trapped and would clear the exhaustive flag)."),
+        note="CPython's shuffle draws only via _randbelow (unowned draws are trapped and would clear the exhaustive flag). Loop control state = line + plain-valued locals + plain-valued module globals of permute_molecule; state hidden elsewhere (closures, object attributes) would not be seen by the closure rule."),
 }
 
 NOT_YET = {
